@@ -24,6 +24,10 @@ def _grab(call, names):
 def confirm(ob, call, rep):
     cap = _grab(call, ['crash_workload', 'ann_roundtrip', 'ann_linebreak', 'log_verbatim', 'ann_atomic', 'many_datasets',
                        'results_latest'])
+    if cap['name'] == 'ann_atomic' and rep.get('exception'):
+        # the real method raised inside the in-memory file / lock model (e.g. it uses a part of the file protocol the
+        # model lacks): a limitation of the harness, never a verdict about pharmpy
+        return dict(ok=None, note=f"in-memory file model raised {rep.get('exception')}: {rep.get('msg')}")
     if cap['name'] == 'ann_atomic':
         # structural obligation over the real method body (lock recorder + in-memory open): the concrete replay of
         # the harness already ran the real code; the race it stands for needs two writers and is not re-enacted
